@@ -259,5 +259,5 @@ def replay_case(case):
 
 
 SUBCHECKS = [
-    Sub("rule", sub_rule, quick={"n": 400}, thorough={"n": 6000}, shards_quick=8, shards_thorough=16, replay=replay_case),
+    Sub("rule", sub_rule, quick={"n": 150}, thorough={"n": 4000}, shards_quick=8, shards_thorough=16, replay=replay_case),
 ]
